@@ -1,7 +1,7 @@
 """Developer tool: validate a seeded change and run a property check against it.
 
 usage: seedtest.py <PROP> <patch.diff> <demo.py> [--suite] [--all-checks]
-Uses a scratch worktree of /repo HEAD under /tmp (removed afterwards)."""
+Uses a scratch copy of /repo HEAD under /tmp (removed afterwards)."""
 import json, os, subprocess, sys, tempfile, shutil
 
 def sh(cmd, **kw):
@@ -12,21 +12,21 @@ def main():
     suite = '--suite' in sys.argv
     allc = '--all-checks' in sys.argv
     wt = tempfile.mkdtemp(prefix='mut-', dir='/tmp')
-    os.rmdir(wt)
-    r = sh('git -C /repo worktree add -q --detach %s HEAD' % wt)
+    # a scratch copy of the committed tree (no git worktree: many of these run side by side)
+    r = sh('git -C /repo archive HEAD | tar -x -C %s' % wt)
     assert r.returncode == 0, r.stderr
     res = {'prop': prop, 'patch': patch}
     try:
         env = dict(os.environ, PYTHONPATH=wt)
         d0 = sh('timeout 120 /venv/bin/python %s' % demo, env=env, cwd='/tmp')
         res['demo_clean'] = d0.returncode
-        a = sh('git -C %s apply %s' % (wt, patch))
+        a = sh('git apply %s' % patch, cwd=wt)
         res['apply'] = a.returncode
         if a.returncode != 0:
             res['apply_err'] = a.stderr[-300:]
         d1 = sh('timeout 120 /venv/bin/python %s' % demo, env=env, cwd='/tmp')
         res['demo_mut'] = d1.returncode
-        pyfiles = [l for l in sh('git -C %s diff --name-only' % wt).stdout.split() if l.endswith('.py')]
+        pyfiles = sorted({l.split(' b/', 1)[1].strip() for l in open(patch) if l.startswith('diff --git ') and ' b/' in l and l.strip().endswith('.py')})
         if pyfiles:
             c = sh('timeout 600 /venv/bin/python -m py_compile ' + ' '.join('%s/%s' % (wt, f) for f in pyfiles))
             res['compiles'] = c.returncode == 0
@@ -44,7 +44,6 @@ def main():
             fails = [l for l in k.stdout.splitlines() if l.startswith('FAIL') or l.startswith('ANALYSIS-ERROR')]
             res['checks'][p] = {'exit': k.returncode, 'fails': fails[:6]}
     finally:
-        sh('git -C /repo worktree remove --force %s' % wt)
         shutil.rmtree(wt, ignore_errors=True)
         shutil.rmtree(wt + '-out', ignore_errors=True)
     print(json.dumps(res, indent=1))
